@@ -185,3 +185,24 @@ def element_map(prog, F, inline=None):
             continue
         pairs.append((strip(p.ret), lambda t: strip(t)[0] == "param" and strip(t)[1] == 2, p, None))
     return {"pairs": pairs, "colls": colls, "err": None, "form": "map"}
+
+
+def map_collect(prog, term, inline=None):
+    """term = `src.map(closure).collect()`: returns (collection iterated (forward, complete) or None, [(value the closure
+    returns, is_elem)]) with the closure's captures resolved to the enclosing function's terms; None if not that shape."""
+    import iters
+    t = strip(term)
+    if not (t[0] == "call" and t[1].endswith("::collect") and t[2]):
+        return None
+    x = strip(t[2][0])
+    if not (x[0] == "call" and x[1].endswith("::map") and len(x[2]) == 2):
+        return None
+    lay = iters.layout(x[2][0])
+    clo = strip(x[2][1])
+    if lay is None or lay[0] != "elem" or lay[2] != 0 or clo[0] != "closure" or body_of(prog, clo[1]) is None:
+        return None
+    pairs = []
+    for p in Walker(body_of(prog, clo[1]), max_visits=2, inline=inline).paths(init_env={1: clo}):
+        if p.end == "return":
+            pairs.append((strip(p.ret), lambda t_: strip(t_)[0] == "param" and strip(t_)[1] == 2))
+    return lay[1], pairs
